@@ -169,6 +169,8 @@ def caller_roundtrip(r, pfx, form, avoid, delims):
             if fform == "sfile" and chance(r, 0.3):
                 # the header dict comes from an earlier file of this caller (or from the file about to be replaced)
                 op["hdr_from"] = pick(r, paths)
+            elif fform == "sfile" and chance(r, 0.004):
+                op["hdr_big"] = r.randrange(20000, 40000)
             elif fform == "sfile" and chance(r, 0.06):
                 # a long user header, padded so that the END line of the stored header lands on (or a few bytes
                 # before) a multiple of a block size a header reader may work in
@@ -335,6 +337,21 @@ def caller_subsets(r, pfx, avoid):
     for h, *_ in handles:
         if chance(r, 0.5):
             ops.append({"k": "close", "h": h})
+    if chance(r, 0.012):
+        # the expensive corner of "for all tables": a binary table of more than 2 GiB (stored sparsely: a handful of
+        # known rows, zeros elsewhere) and selections whose rows lie more than 2**31 bytes apart
+        n = (2 ** 31) // 24 + r.randrange(1000, 30_000_000)
+        edge = (2 ** 31) // 24
+        known = sorted(set([0, 1, n - 1, n - 2, n // 2, edge - 1, edge, edge + 1, r.randrange(0, n), r.randrange(0, n)]))
+        sels = []
+        for _ in range(r.randrange(2, 6)):
+            rows = sorted(set(r.sample(known, r.randrange(1, min(5, len(known)) + 1)) + ([r.randrange(0, n)] if chance(r, 0.3) else [])))
+            if chance(r, 0.5):
+                rows = sorted(set(rows + [0, n - 1]))
+            sels.append({"rows": rows, "cols": pick(r, [None, None, ["id"], ["name", "id"], ["x"], "x", ["id", "x", "name"]]),
+                         "style": pick(r, ["read_kw", "getitem_rows", "cols_then_rows", "slice1"])})
+        ops.insert(r.randrange(0, len(ops) + 1), {"k": "sparse", "p": "%sbig.rec" % pfx, "n": n, "known": known,
+                                                   "seed": r.randrange(1 << 30), "sels": sels})
     return ops
 
 
@@ -457,6 +474,9 @@ def caller_history(r, pfx, avoid):
                 if s["form"] == "sfile" and chance(r, 0.06):
                     cop["hdr_align"] = {"block": pick(r, [1024, 4096, 8192, 16384, 65536]), "back": r.randrange(0, 7),
                                         "mult": r.randrange(1, 3)}
+                elif s["form"] == "sfile" and chance(r, 0.15):
+                    # the header dict was read from another (or this) file of the caller, whatever form that has now
+                    cop["hdr_from"] = pick(r, sorted(state))
                 ops.append(cop)
                 s["fields"] = t["fields"]
                 s["exists"] = True
@@ -500,6 +520,8 @@ def caller_history(r, pfx, avoid):
             ops.append({"k": "create", "p": p, "form": s["form"], "delim": s["delim"],
                         "entry": pick(r, SF_CREATE if s["form"] == "sfile" else RAW_CREATE), "tab": t,
                         "hdr": T.gen_header(r, True) if s["form"] == "sfile" else None})
+            if s["form"] == "sfile" and chance(r, 0.25):
+                ops[-1]["hdr_from"] = pick(r, sorted(state))      # e.g. the header of the very file being replaced
             s["fields"] = t["fields"]
         elif x < 0.70:
             hcount[0] += 1
